@@ -428,6 +428,87 @@ pub fn arb_case() -> BoxedStrategy<StreamCase> {
         .boxed()
 }
 
+/// Packets at the top of the 16-bit length range (the reassembler does not look inside the attribute area, so filler
+/// bytes do), with buffers around the packet size and around 65,535, in a handful of chunkings.
+#[derive(Clone, Debug, Hash, Serialize, Deserialize)]
+pub struct BigCase {
+    pub attr_len: u16,
+    /// buffer length relative selection: 0 exact, 1 exact+1, 2 exact-1, 3 65_535, 4 65_536, 5 exact+64
+    pub buf: u8,
+    /// 0 whole, 1 header then rest, 2 split header (7 + 13 + rest), 3 three parts with an empty chunk, 4 packet followed by a 20-byte one
+    pub chunking: u8,
+}
+
+pub fn check_big(c: &BigCase, st: &mut Stats) -> Result<(), String> {
+    let total = 20 + c.attr_len as usize;
+    let mut pkt = vec![0u8; total];
+    pkt[0..2].copy_from_slice(&0x0001u16.to_be_bytes());
+    pkt[2..4].copy_from_slice(&c.attr_len.to_be_bytes());
+    pkt[4..8].copy_from_slice(&MAGIC.to_be_bytes());
+    for (i, b) in pkt.iter_mut().enumerate().skip(8) {
+        *b = (i * 31 + 7) as u8;
+    }
+    let mut stream = pkt.clone();
+    if c.chunking == 4 {
+        let mut small = vec![0u8; 20];
+        small[0..2].copy_from_slice(&0x0101u16.to_be_bytes());
+        small[4..8].copy_from_slice(&MAGIC.to_be_bytes());
+        stream.extend_from_slice(&small);
+    }
+    let buf_len = match c.buf % 6 {
+        0 => total,
+        1 => total + 1,
+        2 => total - 1,
+        3 => 65_535,
+        4 => 65_536,
+        _ => total + 64,
+    };
+    let n = stream.len();
+    let chunks: Vec<usize> = match c.chunking % 5 {
+        0 | 4 => vec![n],
+        1 => vec![20, n - 20],
+        2 => vec![7, 13, n - 20],
+        _ => vec![20, 0, n / 2 - 20, n - n / 2],
+    };
+    let (exp, exp_consumed) = expected(&stream, buf_len);
+    let (got, consumed) = drive(&stream, &chunks, buf_len).map_err(|e| format!("{:?}: {}", c, e))?;
+    // as in the generated streams: of an error only the kind, the chunk at which it is raised and the returned buffer's
+    // length are fixed by the property (size / contents are compared across chunkings there)
+    let got: Vec<Outcome> = got
+        .iter()
+        .zip(exp.iter().chain(std::iter::repeat(&Outcome::Packet(Vec::new()))))
+        .map(|(g, e)| match (g, e) {
+            (Outcome::Error { kind, total_consumed, buf_len, .. }, Outcome::Error { size, header, .. }) => {
+                Outcome::Error { kind, size: *size, total_consumed: *total_consumed, header: header.clone(), buf_len: *buf_len }
+            }
+            (g, _) => g.clone(),
+        })
+        .collect();
+    if got != exp {
+        return Err(format!("{:?} (packet {} bytes, buffer {}): got {} expected {}", c, total, buf_len, describe(&got), describe(&exp)));
+    }
+    if consumed != exp_consumed {
+        return Err(format!("{:?}: consumed {} expected {}", c, consumed, exp_consumed));
+    }
+    st.class(if total > buf_len { "big:exceeds-buffer" } else { "big:fits" });
+    st.nontrivial(c);
+    Ok(())
+}
+
+pub fn big_cases() -> Vec<BigCase> {
+    let mut v = Vec::new();
+    let mut lens: Vec<u16> = (65_500u16..=65_535).collect();
+    lens.extend([32_764u16, 32_768, 40_000, 65_000]);
+    for attr_len in lens {
+        for buf in 0u8..6 {
+            for chunking in 0u8..5 {
+                v.push(BigCase { attr_len, buf, chunking });
+            }
+        }
+    }
+    v
+}
+
 pub fn run(ctx: &Ctx) -> RunResult {
     let mut rr = RunResult::new(RULE);
     rr.assumptions = vec![
@@ -436,6 +517,8 @@ pub fn run(ctx: &Ctx) -> RunResult {
     ];
     let thorough = ctx.tier == Tier::Thorough;
     rr.absorb(run_prop(ctx, "stream", ctx.pick(8_000, 60_000), arb_case, |c, st| check_stream(c, thorough, st)));
+    let big = big_cases();
+    rr.absorb(run_enum(ctx, "big", &big, |c, st| check_big(c, st)));
     rr
 }
 
@@ -446,6 +529,10 @@ pub fn replay(ctx: &Ctx, check: &str, case: &Value) -> Result<(), String> {
             let c: StreamCase = serde_json::from_value(case.clone()).map_err(|e| format!("HARNESS-bad case: {}", e))?;
             let _ = ctx;
             guard_str(|| check_stream(&c, true, &mut st))?
+        }
+        "big" => {
+            let c: BigCase = serde_json::from_value(case.clone()).map_err(|e| format!("HARNESS-bad case: {}", e))?;
+            guard_str(|| check_big(&c, &mut st))?
         }
         _ => Err(format!("HARNESS-unknown check {}", check)),
     }
